@@ -23,6 +23,7 @@ EXPLANATION = ('One rule set: committer (Group::commit_internal) and receiver (M
                'path requirement is computed by the same function from the applied proposals on both sides; the proposal-rule '
                'guards and error variants confirmed on the reviewed tree are all still present (INVENTORY). Agreement on every '
                'multiset of proposals (value level) is not decided.')
+EXPLANATION += ' ORDER: direct paths of updaters are blanked only after every update was accepted or rolled back. PAIRED-UPDATE: a leaf taken out of the node vector is taken out of the tree index on every path on which the removal succeeded.'
 ASSUMPTIONS = ['application-supplied MlsRules / IdentityProvider are deterministic and the same on all members']
 
 RULE_FNS = (r'^(filtering::|filtering_common::|filtering_lite::|ProposalApplier::|proposal_filter::|TreeKemPublic::(batch_edit|batch_edit_lite|add_leaf|update_leaf|apply_remove)|'
